@@ -7,6 +7,7 @@ CONSTANTS
   Elem = {"e"}
   AsBuilt = {"stamp_keeps_self_replica"}
   Kinds = {"lww", "hash"}
+  CausalModes = {FALSE}
   MaxSteps = 3
 CONSTRAINT StepBound
 INVARIANTS Commutative
